@@ -728,7 +728,11 @@ func calleeErrRule(p *Prog, r *Report, id, text string, floor int, pred func(*ty
 			site := fmt.Sprintf("%s/call %s#%d", fi.Name(), name, cnt[name])
 			pos := p.PosStr(ec.call.Pos())
 			akey := p.anchorFor(fi, fnPartsOf(mapKeys(auditedErrDrops))) + "|" + name
-			if why, ok := auditedErrDrops[akey]; ok {
+			if why, ok, broken := auditedDrop(p, akey); ok {
+				if broken != "" {
+					r.Bad(site, pos, "audited drop whose sub-fact no longer holds: "+broken)
+					continue
+				}
 				r.OK(site, pos, "audited drop: "+why)
 				r.Tables = append(r.Tables, id+" audited drop "+akey+" — "+why)
 				continue
@@ -1736,4 +1740,308 @@ func stmtsBefore(list []ast.Stmt, n ast.Node) []ast.Stmt {
 		}
 	}
 	return out
+}
+
+// ---------------------------------------------------------------------------
+// D18: callers of a method whose signature changes are regenerated
+
+// markAllHelpers returns the functions of package generator whose body marks every
+// method of the lookup index dirty: a range over getGenMethods()/GetAll() whose body
+// stores Dirty = true without an early leave.
+func markAllHelpers(p *Prog) map[*types.Func]bool {
+	out := map[*types.Func]bool{}
+	for _, fi := range p.Funcs {
+		if relPkg(fi.Pkg.PkgPath) != "generator" || fi.Decl.Body == nil {
+			continue
+		}
+		info := fi.Pkg.TypesInfo
+		ast.Inspect(fi.Decl.Body, func(n ast.Node) bool {
+			rs, ok := n.(*ast.RangeStmt)
+			if !ok {
+				return true
+			}
+			call, ok := ast.Unparen(rs.X).(*ast.CallExpr)
+			if !ok {
+				return true
+			}
+			f, ok := calleeObj(info, call).(*types.Func)
+			if !ok || (f.Name() != "getGenMethods" && f.Name() != "GetAll") {
+				return true
+			}
+			if earlyLeave(info, rs.Body.List) != nil {
+				return true
+			}
+			for _, s := range rs.Body.List {
+				if as, ok := s.(*ast.AssignStmt); ok && len(as.Lhs) == 1 && len(as.Rhs) == 1 && lhsStoresField(as.Lhs[0], "Dirty") {
+					if id0, ok := ast.Unparen(as.Rhs[0]).(*ast.Ident); ok && id0.Name == "true" {
+						out[fi.Obj] = true
+					}
+				}
+			}
+			return true
+		})
+	}
+	return out
+}
+
+// callersRebuiltRule: generated methods call each other through a signature lookup,
+// so any already built method may contain a call of a method whose signature changes
+// later (ReturnError false→true, a context argument appended).  After each such
+// change every method must be scheduled for regeneration; marking only the creation
+// chain (OriginPath) leaves stale calls — `c.sub(x)` against `sub(x, ctx)` or a
+// two-valued result assigned to one variable — in the output.
+func callersRebuiltRule(p *Prog, r *Report, id string) {
+	r.Rule(id, "callers are regenerated when a callee's signature changes: in generator.ReturnError after `check.ReturnError = true`, and in generator.requireContext after a context argument is appended to check.RawArgs, every path (to the next iteration or the return) calls a helper that marks every method of the lookup index dirty — calls resolve by signature lookup, so the creation chain (OriginPath) is not the set of callers", 2)
+	helpers := markAllHelpers(p)
+	isMarkAll := func(in ssa.Instruction) bool {
+		c, ok := in.(ssa.CallInstruction)
+		if !ok {
+			return false
+		}
+		o := ssaCalleeObj(c)
+		return o != nil && helpers[o.Origin()]
+	}
+	type site struct {
+		fn   string
+		what string
+		is   func(in ssa.Instruction) bool
+	}
+	sites := []site{
+		{"generator.(*generator).ReturnError", "ReturnError = true", func(in ssa.Instruction) bool {
+			st, ok := in.(*ssa.Store)
+			if !ok {
+				return false
+			}
+			fa, ok := st.Addr.(*ssa.FieldAddr)
+			if !ok || fieldName(fa) != "ReturnError" {
+				return false
+			}
+			k, ok := st.Val.(*ssa.Const)
+			return ok && constantBool(k)
+		}},
+		{"generator.(*generator).requireContext", "RawArgs = append(RawArgs, context)", func(in ssa.Instruction) bool {
+			st, ok := in.(*ssa.Store)
+			if !ok {
+				return false
+			}
+			fa, ok := st.Addr.(*ssa.FieldAddr)
+			return ok && fieldName(fa) == "RawArgs"
+		}},
+	}
+	for _, s := range sites {
+		fi, sf := needFunc(p, r, s.fn)
+		if fi == nil {
+			continue
+		}
+		n := 0
+		allInstrs(sf, false, func(in ssa.Instruction) {
+			if !s.is(in) {
+				return
+			}
+			n++
+			st := fmt.Sprintf("%s/after %s#%d", s.fn, s.what, n)
+			change := in
+			g := existsPath(in.Block(), instrIndex(in)+1, func(x ssa.Instruction) bool { return isReturn(x) || x == change }, isMarkAll)
+			if g == nil {
+				r.OK(st, p.PosStr(in.Pos()), "every method is re-marked dirty after the signature change")
+			} else {
+				r.Bad(st, p.PosStr(in.Pos()), "after the signature of a generated method changes only the method and its creation chain are regenerated: a method that already emitted a call to it (found by signature lookup, e.g. through a recursive type) keeps the stale call — the output does not compile (missing context argument / unchecked error result)")
+			}
+		})
+		if n == 0 {
+			r.Bad(s.fn+"/"+s.what, p.PosStr(fi.Decl.Pos()), "signature-changing store not found")
+		}
+	}
+}
+
+// ---------------------------------------------------------------------------
+// D19: an update position never delegates to a generated method
+
+// declaredLookupHelpers: functions of package generator that answer "did the user
+// provide a conversion for this pair?" — they call Get on g.extend and on g.lookup on
+// every path to a result, return true as soon as the extend index has a hit (or an
+// error), and look at Explicit for the method index.
+func declaredLookupHelpers(p *Prog) map[*types.Func]string {
+	out := map[*types.Func]string{}
+	for _, fi := range p.Funcs {
+		if relPkg(fi.Pkg.PkgPath) != "generator" {
+			continue
+		}
+		sig := fi.Obj.Type().(*types.Signature)
+		if sig.Results().Len() != 1 || !types.Identical(sig.Results().At(0).Type(), types.Typ[types.Bool]) {
+			continue
+		}
+		sf := p.SSAFunc(fi)
+		if sf == nil {
+			continue
+		}
+		isGet := func(field string) func(in ssa.Instruction) bool {
+			return func(in ssa.Instruction) bool {
+				c, ok := in.(ssa.CallInstruction)
+				if !ok || ssaCalleeObj(c) == nil || ssaCalleeObj(c).Name() != "Get" || recvTypeName(ssaCalleeObj(c)) != "Index" {
+					return false
+				}
+				args := c.Common().Args
+				return len(args) > 0 && loadsFieldNamed(args[0], field)
+			}
+		}
+		var eg, lg ssa.Instruction
+		readsExplicit := false
+		allInstrs(sf, false, func(in ssa.Instruction) {
+			if isGet("extend")(in) {
+				eg = in
+			}
+			if isGet("lookup")(in) {
+				lg = in
+			}
+			if u, ok := in.(*ssa.UnOp); ok && loadsFieldNamed(u, "Explicit") {
+				readsExplicit = true
+			}
+		})
+		if eg == nil || lg == nil || !readsExplicit {
+			continue
+		}
+		// a result that may be false is produced only after both indexes were asked
+		mayFalse := func(in ssa.Instruction) bool {
+			ret, ok := in.(*ssa.Return)
+			if !ok {
+				return false
+			}
+			k, isK := ret.Results[0].(*ssa.Const)
+			return !isK || !constantBool(k)
+		}
+		why := ""
+		if g := existsPath(sf.Blocks[0], 0, mayFalse, isGet("extend")); g != nil {
+			why = "can answer without asking the extend index"
+		}
+		if g := existsPath(sf.Blocks[0], 0, mayFalse, isGet("lookup")); g != nil {
+			why = "can answer `not declared` without asking the method index"
+		}
+		// an extend hit answers true: the non-nil side of the test on extend.Get's first result reaches no may-be-false return
+		var egVal ssa.Value
+		if c, ok := eg.(*ssa.Call); ok && c.Referrers() != nil {
+			for _, rf := range *c.Referrers() {
+				if ex, ok := rf.(*ssa.Extract); ok && ex.Index == 0 {
+					egVal = ex
+				}
+			}
+		}
+		if egVal == nil {
+			why = "the result of extend.Get is not used"
+		} else {
+			tested := false
+			for _, b := range sf.Blocks {
+				ifi, ok := b.Instrs[len(b.Instrs)-1].(*ssa.If)
+				if !ok {
+					continue
+				}
+				ne, isC := isNilCheck(ifi.Cond, func(x ssa.Value) bool { return x == egVal })
+				if !isC {
+					continue
+				}
+				tested = true
+				nonNil := b.Succs[0]
+				if !ne {
+					nonNil = b.Succs[1]
+				}
+				if g := existsPath(nonNil, 0, func(in ssa.Instruction) bool {
+					ret, ok := in.(*ssa.Return)
+					if !ok {
+						return false
+					}
+					k, isK := ret.Results[0].(*ssa.Const)
+					return !isK || !constantBool(k)
+				}, func(ssa.Instruction) bool { return false }); g != nil {
+					why = "an extend function that exists does not make the answer true"
+				}
+			}
+			if !tested {
+				why = "the extend hit is not tested with != nil"
+			}
+		}
+		out[fi.Obj] = why
+	}
+	return out
+}
+
+// updateNoDelegateRule (C11.R9): generator.Assign handles an update position
+// (assignTo.Update, struct → struct) by assigning field by field unless the user
+// declared a conversion for the pair; it never hands the position to a generated
+// sub-method, whose result would replace FUNC's value as a whole.
+func updateNoDelegateRule(p *Prog, r *Report, id string) {
+	r.Rule(id, "default:update applies the source on top of FUNC's result even when a generated method for the same struct pair exists (recursive types): in generator.Assign a branch whose condition requires assignTo.Update and the negative answer of a verified `declared by the user?` lookup returns assignNoLookup(…) and dominates callExisting/createSubMethod", 1)
+	fi, sf := needFunc(p, r, "generator.(*generator).Assign")
+	if fi == nil {
+		return
+	}
+	helpers := declaredLookupHelpers(p)
+	site := "generator.(*generator).Assign/update position"
+	var ce ssa.Instruction
+	allInstrs(sf, false, func(in ssa.Instruction) {
+		if c, ok := in.(ssa.CallInstruction); ok && ssaCalleeObj(c) != nil && ssaCalleeObj(c).Name() == "callExisting" {
+			ce = in
+		}
+	})
+	if ce == nil {
+		r.Unresolved("callExisting in generator.Assign")
+		return
+	}
+	found, why := false, "no branch on assignTo.Update precedes the lookup of existing methods: at an update position a generated sub-method for the same struct pair (created for a recursive type) is called and its result replaces FUNC's value — fields FUNC had set are lost"
+	for _, b := range sf.Blocks {
+		// a block that returns assignNoLookup(…) before the lookup of existing methods
+		if ce.Block().Dominates(b) {
+			continue
+		}
+		retNoLookup := false
+		for _, in := range b.Instrs {
+			if c, ok := in.(ssa.CallInstruction); ok && ssaCalleeObj(c) != nil && ssaCalleeObj(c).Name() == "assignNoLookup" {
+				retNoLookup = true
+			}
+		}
+		if _, endsRet := b.Instrs[len(b.Instrs)-1].(*ssa.Return); !retNoLookup || !endsRet {
+			continue
+		}
+		var dom []ssa.Value
+		for d := b; d != nil && d.Idom() != nil; d = d.Idom() {
+			idom := d.Idom()
+			if ifi, ok := idom.Instrs[len(idom.Instrs)-1].(*ssa.If); ok {
+				if idom.Succs[0].Dominates(b) && len(idom.Succs[0].Preds) == 1 {
+					dom = append(dom, ifi.Cond)
+				}
+				if idom.Succs[1].Dominates(b) && len(idom.Succs[1].Preds) == 1 {
+					dom = append(dom, negFact{ifi.Cond})
+				}
+			}
+		}
+		facts := expandFacts(dom)
+		hasUpd, helperWhy, hasHelper := false, "", false
+		for _, f := range facts {
+			if loadsField(f, "Update") {
+				hasUpd = true
+			}
+			if nf, ok := f.(negFact); ok {
+				if c, ok := nf.Value.(*ssa.Call); ok && ssaCalleeObj(c) != nil {
+					if w, ok := helpers[ssaCalleeObj(c).Origin()]; ok {
+						hasHelper, helperWhy = true, w
+					}
+				}
+			}
+		}
+		pos := p.PosStr(b.Instrs[len(b.Instrs)-1].Pos())
+		switch {
+		case !hasUpd:
+			why = pos + ": assignNoLookup is reached before the lookup of existing methods without assignTo.Update being required"
+		case !hasHelper:
+			why = pos + ": the update branch bypasses the lookup without first asking whether the user declared a conversion for the pair (C06)"
+		case helperWhy != "":
+			why = pos + ": the `declared?` helper " + helperWhy
+		default:
+			found = true
+		}
+	}
+	if found {
+		r.OK(site, p.PosStr(fi.Decl.Pos()), "Update ∧ ¬declared → assignNoLookup, before callExisting")
+	} else {
+		r.Bad(site, p.PosStr(fi.Decl.Pos()), why)
+	}
 }
